@@ -47,3 +47,11 @@ Proof. split; vm_compute; reflexivity. Qed.
    std::sync::Mutex's. *)
 Lemma shared_cache_methods_atomic : shared_cache_single_lock = true.
 Proof. vm_compute. reflexivity. Qed.
+
+(* the critical sections around zones_lock in crates/resolved/src/main.rs have the shape
+   Config/ConfigConcurrent.v models (syntactic facts read by the table translator): the request handler
+   takes the read lock exactly once, binds the guard before resolve(...) and never drops it early;
+   reload_task loads first and, only on success, takes the write lock exactly once and stores the loaded
+   value; nothing else touches the lock (no try_* / blocking_* variants, no further site). *)
+Lemma zones_lock_sections_ok : zones_lock_shape = true.
+Proof. vm_compute. reflexivity. Qed.
